@@ -262,7 +262,56 @@ def run(tier, replay):
         items = [({"eol:" + c["eol"], "stage:" + c["stage"], "fault:" + c["fault"]}, b["text"], recs[i]["obs"])
                  for i, ((src, c), b) in enumerate(zip(allcases, built)) if i % k == 0]
         items += [({"eof-fault:" + name}, t, observed(r)) for (name, final, t), r in zip(eof_texts, eof_resps)]
+        # texts in which a character of several bytes lies across the 8192nd / 16384th byte of the file, with the fault
+        # further right on the SAME line (a loader that reads the file block by block must not cut a character in two)
+        strad = []
+        for ch in ("\u00e9", "\u20ac", "\U0001F600"):
+            w = len(ch.encode("utf-8"))
+            for boundary in (8192, 16384, 65536):
+                for fault_name, fault_txt in (("div0", ": X = 1 / 0"), ("syntax", ": X = = 1"), ("lint", ': X% = "s"')):
+                    for off in range(1, w):
+                        # the prefix is as long as it takes for one character to start `off` bytes before the boundary
+                        head = 'A$ = "'
+                        pad = (boundary - off - len(head)) % w
+                        nch = (boundary - off - len(head) - pad) // w + 3
+                        strad.append(({"straddle:%d/%d" % (boundary, w), "fault:" + fault_name},
+                                      "PRINT 1\r\n" [:0] + head + "x" * pad + ch * nch + '"' + fault_txt + "\r\nPRINT 2\r\n"))
+        sresp = pool.map([{"op": "run", "text": t, "budget": 20000} for _, t in strad], timeout=40)
+        items += [(f, t, observed(r)) for (f, t), r in zip(strad, sresp)]
         fstats = file_pass(rep, d, tier, items)
+        fstats["straddling_texts"] = len(strad)
+        # positions far down and far right: the same text behind N more lines (N around and beyond 65536) reports every row N
+        # further down, the same text with every line K blanks further right reports every column K further right (Text.tla:
+        # the position machine adds a row per line end and a column per character, MC_Text RowsMonotone)
+        far = []
+        step = max(1, len(built) // (36 if tier == "thorough" else 12))
+        for i in range(0, len(built), step):
+            o = recs[i]["obs"]
+            if o["stage"] not in ("parse", "lint", "run") or not o["pos"]:
+                continue
+            text = built[i]["text"]
+            eol = {"crlf": "\r\n", "lf": "\n", "cr": "\r"}.get(allcases[i][1]["eol"], "\r\n")
+            nth = len(far)
+            N = (65530, 65535, 65536, 70000)[nth % 4]
+            far.append(("rows+%d" % N, i, ("'" + eol if nth % 2 else eol) * N + text, N, 0))
+            if nth % 6 == 0 and len(text) < 1500 and "\"" not in text and "DATA" not in text.upper():
+                K = (65530, 65536)[(nth // 6) % 2]
+                lines = [ln for ln in text.replace("\r\n", "\n").replace("\r", "\n").split("\n")]
+                far.append(("cols+%d" % K, i, eol.join((" " * K + ln) if ln.strip() else ln for ln in lines), 0, K))
+        fresp = pool.map([{"op": "run", "text": t, "budget": 200000} for _, _, t, _, _ in far], timeout=120)
+        nfar = 0
+        for (what, i, t, N, K), r in zip(far, fresp):
+            o, g = recs[i]["obs"], observed(r)
+            want = [[p[0] + N, p[1] + K] for p in o["pos"]]
+            nfar += 1
+            # the column of a call site is not judged (the property speaks of rows there): compare rows, and the column of the fault
+            same = g["stage"] == o["stage"] and g["fam"] == o["fam"] and [p[0] for p in g["pos"]] == [p[0] for p in want] and \
+                (not want or g["pos"][0][1] == want[0][1])
+            if not same:
+                rep.violation({"case": "the same text " + what, "rendered_text_base": built[i]["text"], "observed_base": o, "observed_shifted": g,
+                               "expected": {"stage": o["stage"], "fam": o["fam"], "pos": want}},
+                              {"what:far-position", "shift:" + what.split("+")[0]}, name="far")
+        fstats["far_positions_compared"] = nfar
     coverage = {
         "file_pass": fstats,
         "evaluations": len(recs), "distinct_nontrivial": len({b["text"] for b in built}),
